@@ -152,14 +152,14 @@ DISABLED = set(p for p in CHECKS if p not in ('C02','C05','C12','C13','C19','C20
 EXTRA = {
  "C03": " C03_initiation_monitor: every response that redirects to the authorization endpoint stores, in a cookie that is set (not deleted), exactly the state / nonce / verifier its URL shows (boolean monitor applied to every observed response).",
  "C04": " C04_completion_step: a response that completes a login (callback 302 to a local path after a successful exchange) or a forwarded refresh stores, in that very response, the authenticated main cookie and the ID token obtained.",
- "C05": " A third supporting run overlaps two browsers' refreshing requests with one slow JWKS fetch after the key set expired and was dropped by the cleanup tick.",
+ "C05": " A third supporting run overlaps two browsers' refreshing requests with one slow JWKS fetch after the key set expired and was dropped by the cleanup tick; a fourth (no race detector) runs the metadata refresh loop body in a tight loop against login redirects, callbacks and authenticated requests under a deadlock watchdog.",
  "C07": " C07_read_back_step: the ID token forwarded downstream (no provider call intervening) and the refresh token presented to the provider are exactly what the request's cookies hold; histories include tokens of 32-70 KB.",
  "C09": " C09_load_ignores_undecodable (session content never depends on undecodable cookies) and C09_undecodable_ignored (new state equal, response equal up to deletion headers for chunk cookies) hold unconditionally; the opacity measurement includes a main-cookie size sweep up to and beyond the codec's length cap.",
- "C12": " A quarter of the histories run through the TokenCache wrapper (prefixed keys, claims maps) around the cache, judged by the same model.",
- "C13": " The stress run includes a retention phase: writers re-store their own key live while sweepers call Cleanup; a live entry below capacity must always be found.",
+ "C12": " A quarter of the histories run through the TokenCache wrapper (prefixed keys, claims maps) around the cache, judged by the same model; C12_wrapper_outputs / C12_wrapper_history: the cache behind ANY injective renaming of keys gives the same outputs, so every C12 statement holds of the wrapper with the caller's keys. Lifetimes range from negative to math.MaxInt64.",
+ "C13": " The stress run includes a retention phase (writers re-store their own key live while sweepers call Cleanup; a live entry below capacity must always be found) and an LRU phase (the least recently used entry of a full cache is looked up while other goroutines hold the lock, then one key is stored: the looked-up entry must survive).",
  "C17": " C17_login_heals / C17_save_heals: a successful callback turns ANY jar whose chunk cookies form a prefix (junk, other keys, renamed cookies under every name) into a contiguous jar holding exactly the stored session; C17_prefix_invariant / C17_prefix_tamper: that premise is preserved by every response and by tampering with cookie values; C17_redirect_starts_login: every login redirect stores the state it shows.",
- "C19": " The limiter construction is measured for every configured limit 10..130 and a spread up to 10000 (values that do not divide a second, values above 1000); arrival patterns are also run for such limits.",
- "C20": " C20_stays_serving: once healed, no request is turned away while the provider keeps its document, whatever shifts / refresh ticks / cleanups happen; one case runs with the middleware's DEFAULT HTTP client (measured timeout) against a provider that sends headers and stalls the body.",
+ "C19": " Supporting runs also check that 35 sessions issued by another instance are all served by a fresh instance with rateLimit 10 (session traffic is exempt) and that a refresh with the limiter drained is refused. The limiter construction is measured for every configured limit 10..130 and a spread up to 10000 (values that do not divide a second, values above 1000); arrival patterns are also run for such limits.",
+ "C20": " C20_stays_serving: once healed, no request is turned away while the provider keeps its document, whatever shifts / refresh ticks / cleanups happen; one case runs with the middleware's DEFAULT HTTP client (measured timeout) against a provider that sends headers and stalls the body; C20_endpoints_of_one_document (monitor clause ep_ok): all six endpoint fields of a ready instance are those of ONE document the provider handed out.",
 }
 
 
